@@ -13,6 +13,7 @@
 #include <soundswallower/err.h>
 
 fsg_hist_entry_t verif_cell;   /* the entry most recently fetched */
+fsg_hist_entry_t verif_cell0;  /* (producer-side cell for entry 0; named by an always-injected ghost statement in fsg_search_null_prop) */
 fsg_link_t verif_lcell;        /* its link (when it has one) */
 int32 verif_cell_id;
 fsg_hist_entry_t verif_wit;    /* witness entry: content of index verif_w (verif_w is declared in ssw_ghost.h) */
